@@ -75,3 +75,67 @@ Example C07_nonvacuous :
   run0 (cfg0 true true []) h_f1 = None /\ run0 (cfg0 true true [2%nat]) h_f14 = None /\
   exists s0, pinit (cfg0 true true []) world0 = Some s0.
 Proof. vm_compute. repeat split. eexists. reflexivity. Qed.
+
+(* ---------------------------------------------------------------- "later changes do not go unreported": the root *)
+Require Import WD.Model.PathTypes WD.Proofs.PathProofs WD.Proofs.CoverProofs WD.Proofs.RootAliveProofs.
+
+(* For EVERY well-formed world, EVERY history whose operations leave the root and its ancestors in place (anything
+   else may happen: directories moved out and changed outside, names re-used, deletions) cut by reads of any size,
+   emitter steps and clock ticks, and EVERY set of failing inotify_add_watch calls: the root directory is still
+   watched by the kernel under a descriptor the reader maps to the root's true path, and no stale path entry shares
+   that descriptor - also in the stale-bookkeeping states of the known findings F10/F10b-d. *)
+Theorem C07_root_alive : forall (P : pcfg),
+  c_root (pc_reader P) <> [] -> last_is_sep (c_root (pc_reader P)) = false ->
+  c_fix_ignored (pc_reader P) = true -> c_fix_simulate (pc_reader P) = true ->
+  forall w s0 h s obs,
+  wf_fs w -> fs_names_ok (w_fs w) -> (forall o, In (AOp o) h -> op_ok P o) ->
+  pinit P w = Some s0 -> prun P s0 h [] = Done (s, obs) ->
+  exists e kw,
+    In e (w_fs (p_world s)) /\ f_path e = c_root (pc_reader P) /\ f_dir e = true /\
+    watch_of_ino (p_k s) (f_ino e) = Some kw /\
+    alookup N.eqb (kw_wd kw) (pfw (p_r s)) = Some (c_root (pc_reader P)) /\
+    (forall p, alookup beqb p (wfp (p_r s)) = Some (kw_wd kw) -> p = c_root (pc_reader P)).
+Proof. exact root_alive. Qed.
+Print Assumptions C07_root_alive.
+
+(* ... and therefore every record the kernel delivers on that descriptor about a named entry (create, modify, delete,
+   attrib, close of a file; delete/attrib of a sub-directory) is handed on under  root/<name> *)
+Theorem C07_root_probe : forall (C : cfg) w0 (w : world) r k acc m c n ns,
+  alookup N.eqb w0 (pfw r) = Some (c_root C) ->
+  is_moved_from m = false -> is_moved_to m = false -> Emitter.is_ignored m = false ->
+  is_directory m && is_create m = false ->
+  read_one C (w_fs w) (r, k, acc) {| k_wd := w0; k_mask := m; k_cookie := c; k_name := n :: ns |} =
+  Done (r, k, acc ++ [{| r_wd := w0; r_mask := m; r_cookie := c; r_name := n :: ns;
+                         r_path := join (c_root C) (n :: ns) |}]).
+Proof. exact root_probe. Qed.
+Print Assumptions C07_root_probe.
+
+(* non-vacuity: a history that produces the stale state of F10 (directory moved out, name re-used, change outside)
+   meets every hypothesis of C07_root_alive, and in its final state a watch of the reader points to a path that
+   does not exist any more *)
+Definition hx : list action :=
+  [AOp (Mkdir (sub pR 100)); ARead 9; AOp (Rename (sub pR 100) (sub pO 102)); ARead 9;
+   AOp (Mkdir (sub pR 100)); AOp (Touch (sub (sub pO 102) 120)); ARead 9; AOp (Rmdir (sub pR 100)); ARead 9].
+Example C07_root_alive_nonvacuous :
+  wf_fs w0 /\ fs_names_ok (w_fs w0) /\ (forall o, In (AOp o) hx -> op_ok (Px true) o) /\
+  match pinit (Px true) w0 with
+  | Some s0 => match prun (Px true) s0 hx [] with
+               | Done (s, _) => existsb (fun x : N * bytes => negb (fexists (snd x) (w_fs (p_world s)))) (pfw (p_r s))
+               | Crash _ => false
+               end
+  | None => false
+  end = true.
+Proof.
+  assert (GS : gpath [47;115]%N) by (split; [discriminate | reflexivity]).
+  assert (NR : npath pR) by (apply (npath_sub [47;115]%N 82 GS); reflexivity).
+  assert (NO : npath pO) by (apply (npath_sub [47;115]%N 79 GS); reflexivity).
+  assert (N1 : npath (sub pR 100)) by (apply npath_sub; [now apply npath_gpath | reflexivity]).
+  assert (N2 : npath (sub pO 102)) by (apply npath_sub; [now apply npath_gpath | reflexivity]).
+  assert (N3 : npath (sub (sub pO 102) 120)) by (apply npath_sub; [now apply npath_gpath | reflexivity]).
+  split; [exact w0_wf|]. split; [|split].
+  - intros e [<-|[<-|[<-|[<-|[]]]]]; reflexivity.
+  - intros o Ho. simpl in Ho.
+    repeat (destruct Ho as [Ho|Ho]; [try discriminate; inversion Ho; subst; clear Ho|]); try contradiction;
+      (split; [simpl; auto | split; [simpl; auto | simpl; repeat split; try discriminate; auto]]).
+  - vm_compute. reflexivity.
+Qed.
